@@ -1,5 +1,6 @@
 //! pv — property-based verification harness for tikv/rust-prometheus.
 pub mod engine;
+pub mod exec16;
 pub mod genfam;
 pub mod hb;
 pub mod textparse;
